@@ -504,3 +504,17 @@ Proof.
     rewrite forallb_forall in H3. specialize (H3 q Hq).
     destruct (tlookup b q) as [[d| |d]|] eqn:E; try discriminate. apply tlookup_in. assumption.
 Qed.
+
+Lemma wf_containerb_sound c : wf_containerb c = true -> wf_container c.
+Proof.
+  unfold wf_containerb. intros H. apply andb_prop in H. destruct H as [H H4]. apply andb_prop in H. destruct H as [H H3].
+  apply andb_prop in H. destruct H as [H1 H2].
+  split; [apply nodup_paths_sound; assumption|]. split; [|split].
+  - intros HI. apply Bool.negb_true_iff in H2.
+    assert (E : existsb (path_eqb []) (c_paths c) = true) by (apply existsb_exists; exists []; split; [assumption|reflexivity]).
+    rewrite E in H2. discriminate.
+  - intros p q Hp Hq. rewrite forallb_forall in H3. specialize (H3 p Hp).
+    rewrite forallb_forall in H3. specialize (H3 q Hq). apply existsb_exists in H3. destruct H3 as (x & Hx & E).
+    apply path_eqb_eq in E. subst. assumption.
+  - intros f Hf. rewrite forallb_forall in H4. specialize (H4 f Hf). apply Z.leb_le in H4. assumption.
+Qed.
